@@ -158,7 +158,7 @@ def run(tier, seed):
         "built through the API, elaborated independently, uniquified and elaborated again; states = distinct "
         "canonical inputs; non-trivial = inputs in which some non-leaf definition is instanced more than once below top")
     found = {}
-    deadline = time.time() + (200 if tier == "quick" else 3000)
+    deadline = time.time() + (900 if tier == "quick" else 6000)
     cs = cases(tier)
     k = seed % 7
     engine_b.run_cases(ID, cs[k:] + cs[:k], cov, found, deadline, level="F_hier/" + tier)
